@@ -20,5 +20,6 @@ theorem all_try_realloc_chunk : try_realloc_chunk_Spec := ra_try_realloc_chunk_s
 theorem all_memalign_fix : memalign_fix_Spec := ma_memalign_fix_spec all_dispose_chunk
 theorem all_release_unused_segments : release_unused_segments_Spec := sg_release_unused_segments_spec
 theorem all_sys_trim : sys_trim_Spec := sg_sys_trim_spec
+theorem all_sys_alloc : sys_alloc_Spec := sg_sys_alloc_spec
 
 end TinyVerif.Dl
